@@ -5,16 +5,39 @@
 #include <unistd.h>
 #include <execinfo.h>
 #include <new>
+#include <thread>
 
 using Instance = FSM::Instance;
 
 #ifdef HFSM2_VERIF
-static volatile long g_assertHits = 0;
-static vh::Log* g_log = nullptr;
+static thread_local long g_assertHits = 0;
+static thread_local vh::Log* g_log = nullptr;
 extern "C" void hfsm2_verif_break(const char* file, int line) {
 	++g_assertHits;
 	if (g_log && g_assertHits <= 3000) { const char* b = strrchr(file, '/'); g_log->pending += "B "; g_log->pending += (b ? b + 1 : file); g_log->pending += ' '; g_log->pending += std::to_string(line); g_log->pending += '\n'; }
 }
+#endif
+
+#ifdef VH_ALLOC_HOOK
+// allocation interposition: the library must not allocate; the window is [opBegin .. opEnd) with logging off
+static volatile int g_inLib = 0; static long g_libAllocs = 0; static long g_firstAllocStep = -1; static long g_curStep = 0;
+extern "C" void* __libc_malloc(size_t); extern "C" void __libc_free(void*); extern "C" void* __libc_calloc(size_t, size_t); extern "C" void* __libc_realloc(void*, size_t);
+static inline void vhNoteAlloc() { if (g_inLib) { if (!g_libAllocs) g_firstAllocStep = g_curStep; ++g_libAllocs; } }
+extern "C" void* malloc(size_t n) { vhNoteAlloc(); return __libc_malloc(n); }
+extern "C" void* calloc(size_t a, size_t b) { vhNoteAlloc(); return __libc_calloc(a, b); }
+extern "C" void* realloc(void* p, size_t n) { vhNoteAlloc(); return __libc_realloc(p, n); }
+extern "C" void free(void* p) { __libc_free(p); }
+void* operator new(size_t n) { vhNoteAlloc(); void* p = __libc_malloc(n ? n : 1); if (!p) abort(); return p; }
+void* operator new[](size_t n) { vhNoteAlloc(); void* p = __libc_malloc(n ? n : 1); if (!p) abort(); return p; }
+void operator delete(void* p) noexcept { __libc_free(p); }
+void operator delete[](void* p) noexcept { __libc_free(p); }
+void operator delete(void* p, size_t) noexcept { __libc_free(p); }
+void operator delete[](void* p, size_t) noexcept { __libc_free(p); }
+#define VH_LIB_ENTER(step) do { g_curStep = (long)(step); g_inLib = 1; } while (0)
+#define VH_LIB_LEAVE() do { g_inLib = 0; } while (0)
+#else
+#define VH_LIB_ENTER(step) do {} while (0)
+#define VH_LIB_LEAVE() do {} while (0)
 #endif
 
 static void vhAlarm(int) {
@@ -82,6 +105,7 @@ struct Inst {
 	void*		mem = nullptr;
 	Instance*	m = nullptr;
 	bool		active = false;		// as the driver believes
+	Probe*		ctx = nullptr;		// the probe the instance's callbacks see (a copy shares its original's context)
 };
 
 enum Op { OP_CONSTRUCT = 0, OP_UPDATE, OP_REACT, OP_QUERY, OP_IMMEDIATE, OP_RESET, OP_EXIT, OP_ENTER, OP_DESTROY, OP_SAVE, OP_LOAD, OP_REPLAY, OP_REPLAY_ENTER, OP_PLANEDIT, OP_EXTSTATUS, OP_COPY, OP_REACT2, OP_COUNT };
@@ -94,8 +118,10 @@ struct Driver {
 	int wUpdate = 10, wReact = 3, wQuery = 1, wImmediate = 2, wReset = 1, wExitEnter = 1, wSaveLoad = 0, wPlanEdit = 0, wExtStatus = 0, wRecreate = 0;
 	int replica = 0;		// keep instance 2 in step with instance 0 through replayTransitions
 	int useLogger = 1, verboseMethods = 0;
-	int fillByte = -1;
+	int fillByte = -1;		// pre-fill of the instance storage: -1 none, 0..255 byte, 256 pseudo-random noise
+	int addrOffset = 0;		// place the instance this many alignment units into a larger block
 	int lastOp = -1;
+	int copies = 0;			// per-mille: take a copy of the authority, run it in lock-step, then destroy the original first
 	uint64_t s = 99;
 	uint64_t next() { s = mix(s); return s; }
 
@@ -103,7 +129,9 @@ struct Driver {
 
 	void opBegin(Inst& in, int op, long a = 0, long b = 0) {
 		in.probe.draws = 0; in.probe.guardCalls = 0;
+		if (in.ctx) { in.ctx->draws = 0; in.ctx->guardCalls = 0; }
 		log.tag('O'); log.i(in.idx); log.i((long)in.probe.step); log.i(op); log.i(a); log.i(b); log.nl();
+		if (!log.on) VH_LIB_ENTER(in.probe.step);
 	}
 	void snapshot(Inst& in) {
 		Probe& p = in.probe; const Shape& sh = *p.sh;
@@ -153,7 +181,8 @@ struct Driver {
 	}
 #endif
 	void opEnd(Inst& in) {
-		log.tag('D'); log.i(in.probe.draws); log.nl();
+		VH_LIB_LEAVE();
+		log.tag('D'); log.i(in.ctx ? in.ctx->draws : in.probe.draws); log.nl();
 		snapshot(in);
 #ifdef HFSM2_ENABLE_PLANS
 		if (knobs.planDump && in.m) dumpPlans(in);
@@ -184,12 +213,14 @@ struct Driver {
 	}
 	void construct(Inst& in, long step) {
 		in.probe.step = (uint64_t)step;
-		in.mem = malloc(sizeof(Instance));
-		if (fillByte >= 0) memset(in.mem, fillByte, sizeof(Instance));
+		const size_t slack = (size_t)addrOffset * alignof(Instance);
+		in.mem = malloc(sizeof(Instance) + slack);
+		if (fillByte >= 0 && fillByte < 256) memset(in.mem, fillByte, sizeof(Instance) + slack);
+		else if (fillByte >= 256) { uint64_t z = 0x1234u + (uint64_t)fillByte; unsigned char* b = (unsigned char*)in.mem; for (size_t i = 0; i < sizeof(Instance) + slack; ++i) { z = mix(z); b[i] = (unsigned char)z; } }
 		opBegin(in, OP_CONSTRUCT, VH_MANUAL);
 		in.probe.noCancel = true; in.probe.activating = true;
-		in.m = new (in.mem) Instance(in.probe
-#ifdef HFSM2_ENABLE_UTILITY_THEORY
+		in.m = new ((char*)in.mem + slack) Instance(in.probe
+#if defined(HFSM2_ENABLE_UTILITY_THEORY) && !defined(VH_BUILTIN_RNG)
 			, in.rng
 #endif
 #ifdef HFSM2_ENABLE_LOG_INTERFACE
@@ -214,8 +245,9 @@ struct Driver {
 #endif
 		opBegin(in, OP_DESTROY, in.active);
 		in.m->~Instance();
+		VH_LIB_LEAVE();
 		log.tag('D'); log.i(0); log.nl(); log.tag('E'); log.nl();
-		free(in.mem); in.mem = nullptr; in.m = nullptr; in.active = false;
+		memset(in.mem, 0xDD, sizeof(Instance)); free(in.mem); in.mem = nullptr; in.m = nullptr; in.active = false;
 		for (int st = 0; st < VH_SHAPE.nStates; ++st) { in.probe.expectThis[st] = nullptr; in.probe.firstThis[st] = nullptr; }
 	}
 
@@ -232,6 +264,7 @@ struct Driver {
 	}
 
 	void syncReplica(Inst& a, Inst& r);
+	void copyExperiment(Inst& a, long k);
 	void stepAuthority(Inst& in, long k);
 	int run();
 };
@@ -243,7 +276,7 @@ struct Driver {
 int main(int argc, char** argv) {
 	vh::Driver d;
 	const char* logPath = nullptr;
-	long watchdog = 120;
+	long watchdog = 120; int threads = 1;
 	for (int i = 1; i < argc; ++i) {
 		const char* eq = strchr(argv[i], '=');
 		if (!eq) { fprintf(stderr, "bad arg %s\n", argv[i]); return 2; }
@@ -254,10 +287,11 @@ int main(int argc, char** argv) {
 		else if (key == "seed") d.seed = (uint64_t)v;
 		else if (key == "log") logPath = eq + 1;
 		else if (key == "watchdog") watchdog = v;
+		else if (key == "threads") threads = (int)v;
 		KN(pIssue); KN(pGuardCancel); KN(pGuardIssue); KN(pConsume); KN(pSucceed); KN(pFail); KN(pHeadStatus); KN(pPropagate); KN(pPlanInCb);
 		KN(kinds); KN(structDump); KN(logAnswers); KN(planDump); KN(maxBatch); KN(wfEvery); KN(palette); KN(zeroUtil); KN(pendq);
 		DR(wUpdate); DR(wReact); DR(wQuery); DR(wImmediate); DR(wReset); DR(wExitEnter); DR(wSaveLoad); DR(wPlanEdit); DR(wExtStatus); DR(wRecreate);
-		DR(replica); DR(useLogger); DR(verboseMethods); DR(fillByte);
+		DR(replica); DR(useLogger); DR(verboseMethods); DR(fillByte); DR(addrOffset); DR(copies);
 		else { fprintf(stderr, "unknown key %s\n", key.c_str()); return 2; }
 	}
 	signal(SIGALRM, vhAlarm);
@@ -267,6 +301,23 @@ int main(int argc, char** argv) {
 #ifdef HFSM2_VERIF
 	g_log = &d.log;
 #endif
+	if (threads > 1) {
+		// several independent drivers on separate threads: instances must not share hidden mutable state
+		std::vector<vh::Driver*> ds; std::vector<std::thread> ts;
+		for (int t = 0; t < threads; ++t) {
+			vh::Driver* dt = new vh::Driver(d); dt->seed = d.seed + (uint64_t)t;
+			std::string path = std::string(logPath ? logPath : "/dev/null") + "." + std::to_string(t);
+			dt->log.f = fopen(path.c_str(), "w"); dt->log.on = logPath != nullptr; ds.push_back(dt);
+		}
+		for (int t = 0; t < threads; ++t) ts.emplace_back([&ds, t]() {
+#ifdef HFSM2_VERIF
+			g_log = &ds[(size_t)t]->log;
+#endif
+			ds[(size_t)t]->run(); ds[(size_t)t]->log.flush(); });
+		for (auto& t : ts) t.join();
+		for (auto* dt : ds) { if (dt->log.f) fclose(dt->log.f); }
+		return 0;
+	}
 	const int rc = d.run();
 	d.log.flush();
 	if (d.log.f && d.log.f != stdout) fclose(d.log.f);
